@@ -157,31 +157,8 @@ def float_dev(dentries, dobs, gq, t, field):
     return devs, None
 
 
-PATTERNS = [np.array([1.0, -1.0, 1.0]), np.array([-1.0, 1.0, 1.0]), np.array([1.0, 1.0, -1.0]), np.array([-1.0, -1.0, -1.0])]
-
-
-def perturb(d, p):
-    """the same object description with poses changed at rounding level (1e-14 absolute, 1e-15 rad)"""
-    d = dict(d)
-    d["position"] = (np.array(d["position"], dtype=float) + 1e-14 * p).tolist()
-    d["quat"] = (R.from_rotvec(1e-15 * p) * R.from_quat(np.array(d["quat"], dtype=float))).as_quat().tolist()
-    if "children" in d:
-        d["children"] = [perturb(c, p) for c in d["children"]]
-    return d
-
-
-def noise_floor(dentries, dobs, field):
-    """how much the implementation's own output moves (relative to the field scale) when poses and
-    observers change at rounding level: the conditioning of this particular evaluation"""
-    f = magpy.getB if field == "B" else magpy.getH
-
-    def ev(p):
-        entries = [l2b.load_obj(perturb(d, p)) for d in dentries]
-        if dobs["kind"] == "array":
-            return f(entries, np.array(dobs["points"], dtype=float) + 1e-14 * p, squeeze=False)
-        return f(entries, [l2b.load_obj(perturb(d, -p)) for d in dobs["sensors"]], squeeze=False)
-    base = ev(np.zeros(3))
-    return max(max(l2b.rel_dev(base[i], b[i]) for i in range(len(base))) for b in (ev(p) for p in PATTERNS))
+perturb = l2b.perturb
+noise_floor = l2b.noise_floor
 
 
 def acceptable(dentries, dobs, gq, t, field):
